@@ -198,15 +198,14 @@ func alternatives(v reflect.Value, o *opt) (alts []alt, ok bool) {
 		c := []byte(s)
 		switch o.strType {
 		case 0:
-			alts = append(alts, alt{tag: 12, content: c})
+			// Marshal's rule for a string without a string-type parameter (makeField, the same in Go's
+			// encoding/asn1): PrintableString when every character is in the X.680 PrintableString set ('*' and
+			// '&' are NOT, they are tolerated by the parser only), UTF8String otherwise. x680Printable works on
+			// bytes: every byte of a non-ASCII rune is >= 0x80 and outside the set.
 			if x680Printable(s) {
 				alts = append(alts, alt{tag: 19, content: c})
-			}
-			if isASCII(s) {
-				alts = append(alts, alt{tag: 22, content: c})
-			}
-			if isNumericStr(s) {
-				alts = append(alts, alt{tag: 18, content: c})
+			} else {
+				alts = append(alts, alt{tag: 12, content: c})
 			}
 		default:
 			alts = append(alts, alt{tag: o.strType, content: c})
